@@ -55,7 +55,7 @@ def objOfConn (s : Server) (conn : Nat) : Option Client :=
 
 /-- verdicts about one publication (client PUBLISH, inline publish, will): who received `payload` -/
 def publishVerdicts (pre : Server) (io : ImplOut) (origin topic payload : Str) (pubQos : Nat) (accepted : Bool)
-    (blockedByHook : Option String) (gone : List Nat := []) : List String :=
+    (blockedByHook : Option String) (gone : List Nat := []) (sig17 : String := "-") : List String :=
   let ph := hexOfStr payload
   let th := hexOfStr topic
   -- deliveries: connections that received a PUBLISH with this payload and (if present) this topic
@@ -79,7 +79,7 @@ def publishVerdicts (pre : Server) (io : ImplOut) (origin topic payload : Str) (
       let ok := entitledNonShared c.id || sharedMember c.id
       let r1 := if !accepted || blockedByHook.isSome then
           [fail (if blockedByHook.isSome then "C19" else "C17")
-            (if blockedByHook == some "err" then "F19" else "-")
+            (if blockedByHook == some "err" then "F19" else if blockedByHook.isNone then sig17 else "-")
             s!"a publish that was refused or blocked was forwarded to c{n}"]
         else if !ok then
           [fail (if !aclOk pre c.id topic false then "C17" else "C03") "-"
@@ -290,8 +290,10 @@ def brokerVerdicts (pre : Server) (ws : List String) (core flags : String) : Lis
           let gotWill := io.events.any (· == s!"will({toHex c.id})")
           let c16 := if c.will.flag && c.will.delay == 0 && !gotWill then [fail "C16" "-" "connection lost without DISCONNECT but the will was not published"]
                      else if !c.will.flag && gotWill then [fail "C16" "-" "a will was published for a client that has none"] else []
+          -- C17: a will is a publish by its client: it needs that client's write permission on the will topic
           let pv := if c.will.flag && c.will.delay == 0 && gotWill then
-              publishVerdicts pre io c.id c.will.topic c.will.payload (min c.will.qos pre.caps.maximumQos) true none [n]
+              publishVerdicts pre io c.id c.will.topic c.will.payload (min c.will.qos pre.caps.maximumQos)
+                (aclOk pre c.id c.will.topic true) none [n] "F17a"
             else []
           c16 ++ pv
     | ["bk.release", n] =>
